@@ -63,7 +63,7 @@ def compare(ctx, jobs, op="solve"):
 
 
 def run(ctx):
-    n = ctx.scale(130, 1500)
+    n = ctx.scale(110, 1500)
     jobs, meta = [], []
     for s, tags in cases_for(ctx, n):
         nc, no = len(s["constraints"]), len(s["objects"])
